@@ -85,15 +85,16 @@ func (h *Handler) spoofLoop(addr packet.Addr) {
 	for {
 		h.arpMutex.Lock()
 		targetAddr, hunting := h.huntList[string(addr.MAC)] // membership is per MAC, the key of the hunt list
+		closed := h.closed
 		h.arpMutex.Unlock()
 
-		if !hunting || h.closed {
+		if !hunting || closed {
 			if Logger.IsInfo() {
 				Logger.Msg("hunt loop stop").Struct(addr).Int("repeat", nTimes).String("duration", time.Since(startTime).String()).Write()
 			}
 
 			// When hunt terminate normally, clear the arp table with announcement to real router mac.
-			if !h.closed {
+			if !closed {
 				// request will fix the ether src mac to host to prevent ethernet port disabling
 				if err := h.RequestRaw(addr.MAC, h.session.NICInfo.RouterAddr4, h.session.NICInfo.RouterAddr4); err != nil {
 					Logger.Msg("error send request packet").Struct(addr).Error(err).Write()
